@@ -6,12 +6,13 @@ Require Import Nib.Lib.Dec Nib.C13.Model Nib.C13.Spec.
 Local Open Scope Z_scope.
 
 Record case := {
+  c_zp : bool;                   (* probe: does a positive provision below one unibi panic on this tree? *)
   c_init : st;                   (* params, counters (None = never written) and module balance at the start (observed) *)
   c_tr : list (op * out)         (* ops with the observed effect of each *)
 }.
 
 Definition out_eqb (a b : out) : bool :=
-  Bool.eqb (o_ok a) (o_ok b) && (o_minted a =? o_minted b) && (o_staking a =? o_staking b) &&
+  Bool.eqb (o_ok a) (o_ok b) && Bool.eqb (o_panic a) (o_panic b) && (o_minted a =? o_minted b) && (o_staking a =? o_staking b) &&
   (o_community a =? o_community b) && (o_strategic a =? o_strategic b) && (o_module a =? o_module b) &&
   (o_period a =? o_period b) && (o_skipped a =? o_skipped b).
 
@@ -23,7 +24,7 @@ Fixpoint outs_eqb (a b : list out) : bool :=
   end.
 
 Definition mismatch (c : case) : bool :=
-  negb (outs_eqb (snd (run (c_init c) (map fst (c_tr c)))) (map snd (c_tr c))).
+  negb (outs_eqb (snd (run (c_zp c) (c_init c) (map fst (c_tr c)))) (map snd (c_tr c))).
 
 (* ---- the precondition under which the schedule is claimed (boolean forms of Spec.Consistent / hist_ok) *)
 
@@ -45,24 +46,24 @@ Definition dist_okb (p : params) : bool :=
   (0 <=? p_staking p) && (0 <=? p_community p) && (0 <=? p_strategic p) &&
   (p_staking p + p_strategic p + p_community p =? PREC).
 
-Definition poly_posb (p : params) : bool :=
-  forallb (fun i => 0 <? poly_provision p (Z.of_nat i)) (seq 0 (Z.to_nat (p_max p))).
+Definition poly_okb (zp : bool) (p : params) : bool :=
+  forallb (fun i => (if zp then PREC else 1) <=? poly_provision p (Z.of_nat i)) (seq 0 (Z.to_nat (p_max p))).
 
-(** [g] caches poly_posb && dist_okb of the current parameters (recomputed when they are edited) *)
-Fixpoint hist_okb (E M : Z) (p : params) (g : bool) (e : Z) (ops : list op) : bool :=
+(** [g] caches poly_okb && dist_okb of the current parameters (recomputed when they are edited) *)
+Fixpoint hist_okb (zp : bool) (E M : Z) (p : params) (g : bool) (e : Z) (ops : list op) : bool :=
   match ops with
   | [] => true
   | o :: r =>
       match o with
       | EpochEnd true e' =>
-          (e' =? e) && (0 <=? e) && (e <? two62) && (implb (p_enabled p) g) && hist_okb E M p g (e + 1) r
+          (e' =? e) && (0 <=? e) && (e <? two62) && (implb (p_enabled p) g) && hist_okb zp E M p g (e + 1) r
       | Fund _ => false
       | Edit _ _ =>
           let p' := next_params p o in
-          (p_epp p' =? E) && (p_max p' =? M) && hist_okb E M p' (poly_posb p' && dist_okb p') e r
+          (p_epp p' =? E) && (p_max p' =? M) && hist_okb zp E M p' (poly_okb zp p' && dist_okb p') e r
       | _ =>
           let p' := next_params p o in
-          (p_epp p' =? E) && (p_max p' =? M) && hist_okb E M p' g e r
+          (p_epp p' =? E) && (p_max p' =? M) && hist_okb zp E M p' g e r
       end
   end.
 
@@ -76,7 +77,7 @@ Definition pre (c : case) : bool :=
   | None => false
   | Some e =>
       consistentb s e && (s_module s =? 0) && smallb (p_epp p) (p_max p) && (0 <=? peek (s_skipped s)) &&
-      hist_okb (p_epp p) (p_max p) p (poly_posb p && dist_okb p) e ops
+      hist_okb (c_zp c) (p_epp p) (p_max p) p (poly_okb (c_zp c) p && dist_okb p) e ops
   end.
 
 Definition start_q (c : case) : sst :=
